@@ -13,6 +13,7 @@ import (
 	"google.golang.org/protobuf/reflect/protoregistry"
 	"google.golang.org/protobuf/types/descriptorpb"
 	_ "google.golang.org/protobuf/types/known/anypb"
+	_ "google.golang.org/protobuf/types/known/durationpb"
 	_ "google.golang.org/protobuf/types/known/timestamppb"
 )
 
@@ -102,6 +103,7 @@ var wideScalars = []scalarSpec{
 	{"date", tMsg, ".j5.types.date.v1.Date", nil, true},
 	{"decimal", tMsg, ".j5.types.decimal.v1.Decimal", nil, true},
 	{"ts", tMsg, ".google.protobuf.Timestamp", nil, true},
+	{"duration", tMsg, ".google.protobuf.Duration", nil, true},
 }
 
 func mapEntry(parent string, field string, val fieldSpec) (*descriptorpb.DescriptorProto, string) {
@@ -238,7 +240,7 @@ func WideFile() (protoreflect.FileDescriptor, error) {
 		Package: proto.String(pkg),
 		Syntax:  proto.String("proto3"),
 		Dependency: []string{
-			"google/protobuf/any.proto", "google/protobuf/timestamp.proto", "j5/ext/v1/annotations.proto",
+			"google/protobuf/any.proto", "google/protobuf/duration.proto", "google/protobuf/timestamp.proto", "j5/ext/v1/annotations.proto",
 			"j5/types/any/v1/any.proto", "j5/types/date/v1/date.proto", "j5/types/decimal/v1/decimal.proto",
 		},
 		MessageType: []*descriptorpb.DescriptorProto{wide, leaf, choice, flat, deep},
